@@ -27,7 +27,7 @@ CFG = {
     "theorems": ["C14_checked_ops_exact", "C14_div_floor_zero_refuted", "C14_int_range_invariant", "C14_mint_builder_invariant",
                  "C14_int_range_refuted_before_repair", "C14_int_cbor_roundtrip", "C14_int_cast_argument",
                  "C14_int_min_panic_refuted_before_repair", "C14_int_decimal_roundtrip", "C14_int_from_str_refuted_before_repair",
-                 "C14_int_accessors_exact", "C14_int_as_negative_refuted", "C14_bigint_cbor_roundtrip", "C14_decimal_roundtrip",
+                 "C14_int_accessors_exact", "C14_int_as_negative_refuted", "C14_mint_as_multiasset_exact", "C14_mint_as_multiasset_refuted", "C14_bigint_cbor_roundtrip", "C14_decimal_roundtrip",
                  "C14_value_add_exact_or_error", "C14_value_sub_exact_or_error", "C14_value_sub_refuted_before_repair",
                  "C14_value_clamped_sub_spec", "C14_value_add_comm", "C14_value_add_assoc", "C14_sub_undoes_add",
                  "C14_compare_componentwise", "C14_value_eq_sound", "C14_judge_accepts_model"],
@@ -54,7 +54,7 @@ CFG = {
     "assumptions": [
         "value_wf: sorted distinct keys and quantities < 2^64 (what BTreeMap<_, BigNum> guarantees); asset names <= 32 bytes and 28-byte policy ids in the correspondence run",
         "arguments respect their Rust types (u64, i32); amounts handed to the MintBuilder are themselves obtainable Ints",
-        "known classes: C14-div-by-zero-panic (divisor = 0), C14-int-as-negative-truncates (the Int is -2^64)",
+        "known classes: C14-div-by-zero-panic (divisor = 0), C14-int-as-negative-truncates (the Int is -2^64), C14-mint-duplicate-policy-dropped (a policy id occurs in two entries of a Mint)",
         "native-only conversions that bypass the wasm API (impl From<Vec<i128>> for CostModel) are not an Int source here",
         "dev profile (overflow checks on); the release-profile behaviour of the former casts is covered by theorem C14_int_cast_argument, not by a second binary",
     ],
